@@ -675,4 +675,48 @@ def normVal : Val → Val
   | .str s => .str (setValueStr s)
   | v => v
 
+/-- `x_typ.sql.type` recorded by the parser for a scalar column -/
+def sqlTypeOf : Typ → Option Str
+  | .name s => some (typ2col s)
+  | .optional (.name s) => some (typ2col s)
+  | _ => none
+
+/-- the normal form of one column: name, type string and default unchanged (up to `normVal`), description `normDoc` -/
+def normSql (name : Str) (p : Param) : Parsed :=
+  match p.typ with
+  | some (some t) =>
+    { typ := some t.render, xSqlType := sqlTypeOf t, doc := normDoc name p.doc p.default.isSome,
+      default := p.default.map normVal, serverDefault := p.serverDefault }
+  | _ => {}
+
+/-! ## The SQL-representable domain on which the round trip is exact -/
+
+def scalarNames : List Str := [c!"int", c!"float", c!"str", c!"bool"]
+
+def baseOk : Typ → Bool
+  | .name s => scalarNames.contains s
+  | .literal ms => decide (2 ≤ ms.length)
+  | _ => false
+
+/-- scalars, `Literal` of at least two strings, `Optional` of those, `Optional[dict]`.
+    (A bare `dict` and a one-member `Literal` are in the property's domain but do **not** round-trip: see the
+    negation theorems.) -/
+def typOk : Typ → Bool
+  | .optional t => baseOk t || t == .name c!"dict"
+  | t => baseOk t
+
+def isOptional : Typ → Bool
+  | .optional _ => true
+  | _ => false
+
+/-- one parameter of the domain: a domain type; a name `set_value` leaves alone; no `x_typ`/`items` except the
+    `server_default` AST of the invented `id` column; `Optional[..]` only without a non-`None` default -/
+def inDomain (name : Str) (p : Param) : Bool :=
+  match p.typ with
+  | some (some t) =>
+    typOk t && setValueStr name == name && p.xSqlType.isNone && p.itemsType.isNone &&
+    (match p.serverDefault with | some (.code _) => true | none => true | _ => false) &&
+    (!isOptional t || (match p.default with | some d => inNoneTypes d | none => true))
+  | _ => false
+
 end Sql
